@@ -320,6 +320,43 @@ fn case<T: DeserializeOwned + Serialize + 'static>(sink: &mut Sink, r: &mut Rng,
             }
         }
     }
+    // a source that fails half way (a connection reset, a medium error), then the next document from a
+    // sound source: the failed read is an error, and it leaves nothing behind for the call that follows
+    {
+        struct Fails(Vec<u8>, usize, usize);
+        impl std::io::Read for Fails {
+            fn read(&mut self, buf: &mut [u8]) -> std::io::Result<usize> {
+                if self.1 >= self.2 {
+                    return Err(std::io::Error::new(std::io::ErrorKind::ConnectionReset, "source failed"));
+                }
+                let n = buf.len().min(self.2 - self.1).min(7);
+                buf[..n].copy_from_slice(&self.0[self.1..self.1 + n]);
+                self.1 += n;
+                Ok(n)
+            }
+        }
+        let text = doc.to_string();
+        let cut = 1 + r.below(text.len().max(2) - 1);
+        for pretty in [false, true] {
+            let t1 = text.clone();
+            let failed = guarded(move || {
+                let src = Fails(t1.into_bytes(), 0, cut);
+                if pretty { in_toto::interchange::JsonPretty::from_reader::<_, T>(src).is_ok() } else { Json::from_reader::<_, T>(src).is_ok() }
+            });
+            sink.oracle(failed == Ok(false), "a document from a source that failed half way was accepted (or the reader panicked)", &format!("decode {} failing-source {}", ty, hex(text.as_bytes())));
+            let t2 = text.clone();
+            let after = {
+                let g = guarded(move || if pretty { in_toto::interchange::JsonPretty::from_reader::<_, T>(std::io::Cursor::new(t2.into_bytes())) } else { Json::from_reader::<_, T>(std::io::Cursor::new(t2.into_bytes())) });
+                match g {
+                    Err(()) => "PANIC".to_string(),
+                    Ok(Err(_)) => "reject".to_string(),
+                    Ok(Ok(v)) => serde_json::to_value(&v).map(|j| j.to_string()).unwrap_or_else(|_| "unserialisable".into()),
+                }
+            };
+            let want = channels::<T>(&text)[0].1.clone();
+            sink.oracle(after == want, &format!("{}: the crate's reader decides or decodes differently than from_str when the call before it met a failing source", ty), &format!("decode {} after-failing-source {}", ty, hex(text.as_bytes())));
+        }
+    }
     // one op per document for the record (the model's claim is about the request table, see Props/C17)
     sink.op(&format!("strreq-all-owned {}", ty), "true", reference.as_deref() != Some("reject"));
 }
